@@ -145,8 +145,19 @@ impl Scenario for C09 {
             let p = Plan { kind: "reuse".into(), seqs, deliveries, timeout_ms, salt: r.next_u64() };
             return serde_json::to_value(p).unwrap();
         }
-        let n_seqs = r.range(1, 4) as usize;
-        let seqs: Vec<SeqSpec> = (0..n_seqs).map(|_| gen_seq(r, &mut used)).collect();
+        // now and then a crowd: dozens to hundreds of sequences in flight at once, each short
+        let crowd = r.chance(1, 40);
+        let n_seqs = if crowd { r.range(60, 520) as usize } else { r.range(1, 4) as usize };
+        let seqs: Vec<SeqSpec> = (0..n_seqs)
+            .map(|_| {
+                let mut s = gen_seq(r, &mut used);
+                if crowd {
+                    s.n = r.range(1, 3) as u32;
+                    s.len = s.len.min(40);
+                }
+                s
+            })
+            .collect();
         // u64::MAX stands for Duration::MAX, u64::MAX - 1 for Duration::from_secs(u64::MAX): "never expires"
         let timeout_ms = *r.pick(&[30_000u64, 1_000, 50, 30_000, 1_000, 50, u64::MAX, u64::MAX - 1]);
         let mut pool: Vec<Delivery> = Vec::new();
@@ -173,7 +184,8 @@ impl Scenario for C09 {
         }
         for d in pool.iter_mut() {
             d.wait_ms = match r.below(8) {
-                _ if timeout_ms >= u64::MAX - 1 => *r.pick(&[0u64, 0, 1, 60_000, 3_600_000]),
+                _ if crowd && !r.chance(1, 50) => 0,
+                _ if timeout_ms >= u64::MAX - 1 => *r.pick(&[0u64, 0, 1, 60_000, 600_000]),
                 0 => timeout_ms + 1,
                 1 => timeout_ms,
                 2 => timeout_ms / 2,
@@ -190,7 +202,10 @@ impl Scenario for C09 {
             Ok(p) => p,
             Err(_) => return RunOutput::default(),
         };
-        if p.seqs.is_empty() || p.seqs.len() > 6 || p.seqs.iter().any(|s| s.n == 0 || s.n > 8) {
+        if p.deliveries.iter().map(|d| d.wait_ms as u128).sum::<u128>() > 40 * 3_600_000 {
+            return RunOutput::default(); // longer than the run's horizon
+        }
+        if p.seqs.is_empty() || p.seqs.len() > 600 || p.seqs.iter().any(|s| s.n == 0 || s.n > 8) {
             return RunOutput::default();
         }
         if p.kind == "reuse" {
@@ -224,7 +239,7 @@ impl Scenario for C09 {
             components_stubbed: &["the unordered, duplicating, dropping channel (simulator)", "decode_fragment_header/cont and Connection::receive_message are not in this loop (see C06)"],
             assumptions: &["FragmentAssembler::new() and ::default() both mean the documented 30 s timeout", "a result equal to the ascending-fragment-id concatenation but different from the original message is classified separately (order-ascending-id) from any other wrong result"],
             fault_prefixes: &["fault."],
-            expected_probes: &["probe.c09.completed", "probe.c09.completed_header_last", "probe.c09.completed_header_first", "probe.c09.duplicate_ignored", "probe.c09.out_of_range_ignored", "probe.c09.expired_removed", "probe.c09.incomplete_stays_pending", "probe.c09.interleaved_sequences", "probe.c09.reused_id_completed", "probe.c09.reused_id_continuation_first", "probe.c09.late_duplicate_after_completion", "probe.c09.built_with_new", "probe.c09.built_with_default", "probe.c09.timeout_means_never"],
+            expected_probes: &["probe.c09.completed", "probe.c09.completed_header_last", "probe.c09.completed_header_first", "probe.c09.duplicate_ignored", "probe.c09.out_of_range_ignored", "probe.c09.expired_removed", "probe.c09.incomplete_stays_pending", "probe.c09.interleaved_sequences", "probe.c09.reused_id_completed", "probe.c09.reused_id_continuation_first", "probe.c09.late_duplicate_after_completion", "probe.c09.built_with_new", "probe.c09.built_with_default", "probe.c09.timeout_means_never", "probe.c09.crowd_of_sequences"],
         }
     }
 }
@@ -494,6 +509,9 @@ async fn channel(w: &Arc<World>, p: &Plan) {
     }
     if seen_seqs.len() > 1 {
         w.stat("probe.c09.interleaved_sequences");
+    }
+    if seen_seqs.len() >= 64 {
+        w.stat("probe.c09.crowd_of_sequences");
     }
 }
 
